@@ -3,6 +3,9 @@
 //! cache in order.  For read-only usage, this should be a simple
 //! and easy-to-use interface that erases the difference between plain
 //! and sharded caches.
+#[cfg(kismet_verif)]
+#[allow(unused_imports)]
+use kismet_vfs::{filetime, libc, rand, std, tempfile};
 use std::fs::File;
 #[allow(unused_imports)] // We refer to this enum in comments.
 use std::io::ErrorKind;
@@ -344,6 +347,9 @@ impl ReadOnlyCache {
 
 #[cfg(test)]
 mod test {
+    #[cfg(kismet_verif)]
+    #[allow(unused_imports)]
+    use kismet_vfs::{filetime, libc, rand, std, tempfile};
     use std::fs::File;
     use std::sync::atomic::AtomicU64;
     use std::sync::atomic::Ordering;
